@@ -378,8 +378,23 @@ structure Rec where
 def codecOf (attributes : Int) : Int := attributes % 8
 def isControl (attributes : Int) : Bool := (attributes / 32) % 2 = 1
 
-def recOfV2 (f : FrameV2) (r : RecV2) : Rec :=
+/-- attributes bit 3, the timestamp type: set by the broker for a topic with `message.timestamp.type=LogAppendTime`.
+The batch header then carries the append time (`maxTimestamp` of a v2 batch, the timestamp of a v1 wrapper) and THAT is
+the timestamp of every record of the batch; the deltas / inner timestamps still hold what the producer wrote
+(Kafka protocol guide; `DefaultRecordBatch`, `AbstractLegacyRecordBatch` of the Java client). -/
+def logAppend (attributes : Int) : Bool := (attributes / 8) % 2 = 1
+
+/-- the timestamp of a record of a LogAppendTime batch is the batch's -/
+def stamp (on : Bool) (t : Int) (x : Rec) : Rec := if on then { x with ts := t } else x
+
+@[simp] theorem stamp_offset (on : Bool) (t : Int) (x : Rec) : (stamp on t x).offset = x.offset := by
+  cases on <;> rfl
+
+/-- the record as the producer wrote it (CreateTime) -/
+def recOfV2c (f : FrameV2) (r : RecV2) : Rec :=
   ⟨f.baseOffset + r.offDelta, f.firstTs + r.tsDelta, r.key, r.value, r.headers⟩
+
+def recOfV2 (f : FrameV2) (r : RecV2) : Rec := stamp (logAppend f.attributes) f.maxTs (recOfV2c f r)
 
 def recOfMsg (m : Msg) : Rec := ⟨m.offset, m.ts, m.key, m.value, []⟩
 
@@ -417,7 +432,7 @@ def flattenEntry (c : Crcs) (dec : Int → Bytes → Option Bytes) : Entry → O
             else if m.magic = 0 then some (false, ms.map recOfMsg)
             else
               let base := m.offset - lastOffset ms
-              some (false, ms.map (fun x => { recOfMsg x with offset := base + x.offset }))
+              some (false, ms.map (fun x => stamp (logAppend m.attributes) m.ts { recOfMsg x with offset := base + x.offset }))
 
 def flattenAll (c : Crcs) (dec : Int → Bytes → Option Bytes) : List Entry → Option (List (Bool × List Rec))
   | [] => some []
